@@ -104,6 +104,9 @@ Do(e) ==
     [] e.op = "compact" -> UNCHANGED <<a, c>>
     [] e.op = "reopen" -> a' = a /\ c' = CReopen(c, c.flen)
 
+\* the executable definition of the location packing is lossless on the boundary grid (evaluated once)
+ASSUME PackLossless
+
 MCInit == a = A0 /\ c = C0 /\ hist = <<>>
 MCNext == \E e \in Ops : Do(e) /\ hist' = Append(hist, e)
 Constr == Len(hist) <= D
